@@ -85,7 +85,7 @@ func runC18(p *core.Prog, r *core.Report) {
 	r.Rule("C18-R5", "nothing removes or truncates the destination path where the same-file guard has not yet excluded that it is the source (including deferred clean-up)", 1)
 	r.Rule("C18-R3", "CopyFile returns the result of the copy step; an open error returns before any write", 2)
 	r.NotDecided = append(r.NotDecided, "byte equality after the call; EXDEV behaviour of rename; short writes inside io.Copy; the dropped Close error of the destination (informational)")
-	r.Trusted = append(r.Trusted, "os.SameFile compares device and inode", "os.Stat and os.Create both follow symbolic links", "io.Copy returns the first error", "go/ssa")
+	r.Trusted = append(r.Trusted, "os.SameFile compares device and inode", "os.Stat and os.Create both follow symbolic links", "io.Copy returns the first error", "os.Stat / (*os.File).Stat return a nil FileInfo exactly when they return an error", "go/ssa")
 
 	cp := p.Func("util/osutil", "CopyFile")
 	mv := p.Func("util/osutil", "MoveFile")
@@ -223,6 +223,7 @@ func runC18(p *core.Prog, r *core.Report) {
 			}
 			var haveSrc, haveDest bool
 			var destStat *ssa.Call
+			var srcStats []*ssa.Call
 			for _, a := range sf.Call.Args {
 				for _, lf := range leaves(a) {
 					e, ok := lf.(*ssa.Extract)
@@ -241,6 +242,7 @@ func runC18(p *core.Prog, r *core.Report) {
 								if e2, ok := lf2.(*ssa.Extract); ok {
 									if oc, ok := e2.Tuple.(*ssa.Call); ok && fromParam(oc.Call.Args[0], cp, 0) {
 										haveSrc = true
+										srcStats = append(srcStats, st)
 									}
 								}
 							}
@@ -248,6 +250,7 @@ func runC18(p *core.Prog, r *core.Report) {
 					case "os.Stat":
 						if fromParam(st.Call.Args[0], cp, 0) {
 							haveSrc = true
+							srcStats = append(srcStats, st)
 						}
 						if fromParam(st.Call.Args[0], cp, 1) {
 							haveDest = true
@@ -279,11 +282,42 @@ func runC18(p *core.Prog, r *core.Report) {
 					}
 				}
 			}
-			// destination does not exist: err != nil edge of os.Stat(dest)
+			// destination does not exist: err != nil edge of os.Stat(dest) — or, the same fact, its FileInfo is nil (a stat
+			// returns a FileInfo or an error, never both nil)
 			for _, u := range *destStat.Referrers() {
 				if e, ok := u.(*ssa.Extract); ok && e.Index == 1 {
 					_, nonNil := sx.NilEdges(e)
 					for k := range nonNil {
+						cut.Edges[k] = true
+					}
+				}
+				if e, ok := u.(*ssa.Extract); ok && e.Index == 0 {
+					isNil, _ := sx.NilEdges(e)
+					for k := range isNil {
+						cut.Edges[k] = true
+					}
+				}
+			}
+			// a nil test of the source's FileInfo behind that stat's `err == nil` edge: its nil edge is never taken
+			for _, st := range srcStats {
+				errNil := map[sx.Edge]bool{}
+				var info *ssa.Extract
+				for _, u := range *st.Referrers() {
+					if e, ok := u.(*ssa.Extract); ok && e.Index == 1 {
+						isNil, _ := sx.NilEdges(e)
+						for k := range isNil {
+							errNil[k] = true
+						}
+					} else if ok && e.Index == 0 {
+						info = e
+					}
+				}
+				if info == nil || len(errNil) == 0 {
+					continue
+				}
+				isNil, _ := sx.NilEdges(info)
+				for k := range isNil {
+					if sx.MustPass(cp, nil, k.From.Instrs[len(k.From.Instrs)-1], sx.Cut{Edges: errNil}) {
 						cut.Edges[k] = true
 					}
 				}
